@@ -568,6 +568,48 @@ def stage_mixed_elements_sweep(ctx: Ctx):
                         if d and n - (j - i) > 0:
                             ctx.violation('accepted-invalid|sweep-cut-with-conversion', 'a cut that was accepted left a tree that does not re-parse to itself', {**rec, 'src_after': m.src, 'diffs': d})
 
+    # a node that is still part of a tree (this very tree) given as the code for ONE element: refused with nothing changed, the node left where it is
+    for c in CONTAINERS:
+        olds = list(c.pool[:max(2, c.min_len)])
+        src0 = render_ok(c, olds)
+        if src0 is None:
+            continue
+        src = src0 + ('' if src0.endswith('\n') else '\n') + 'w_ = 3, 4\nq_ = z_.y_\n'
+        try:
+            ast.parse(src)
+        except SyntaxError:
+            continue
+        for which in (-2, -1):
+            for ep in ('append', 'put_slice_one', 'put', 'insert'):
+                try:
+                    m = fst.FST(src, 'exec')
+                    node = eval(c.path, {'m': m})
+                except Exception:
+                    break
+                code = m.body[which].value
+                before = (m.src, ast.dump(m.a, include_attributes=True))
+                rec = {'container': c.name, 'src': src, 'code_node': repr(code), 'entry': ep}
+                try:
+                    if ep == 'append':
+                        getattr(node, c.field).append(code)
+                    elif ep == 'put_slice_one':
+                        node.put_slice(code, 0, 0, c.field, one=True)
+                    elif ep == 'put':
+                        node.put(code, 0, c.field)
+                    else:
+                        node.insert(code, 0, c.field, one=True)
+                except Exception as e:
+                    ctx.tick(('nonroot-one', c.name, which, ep), 'fault:sweep:nonroot-node-as-one')
+                    after = (m.src, ast.dump(m.a, include_attributes=True) if m.a is not None else None)
+                    if after != before:
+                        ctx.violation(f'mutated|sweep-nonroot-node-as-one|{c.name}|{type(e).__name__}|' + ('source changed' if after[0] != before[0] else 'tree positions/structure changed'),
+                                      'a raising edit did not leave the tree exactly as it was', {**rec, 'error': repr(e)[:200], 'src_after': after[0]})
+                    continue
+                ctx.tick(('nonroot-one', c.name, which, ep, 'ok'), 'fault:sweep:nonroot-node-as-one:accepted')
+                d = reparse_diffs(m)
+                if d:
+                    ctx.violation(f'accepted-invalid|sweep-nonroot-node-as-one|{c.name}', 'an edit that was accepted left a tree that does not re-parse to itself', {**rec, 'src_after': m.src, 'diffs': d})
+
 
 def run(ctx: Ctx):
     ctx.rule = ('fault sequences: histories mixing invalid requests (15 fault kinds: unparsable code, wrong category with coerce=False, index/slice out of '
